@@ -15,9 +15,10 @@ package c16
 //	   none with f=0 is never refused. none with f=1h on a connected follower is
 //	   not refused.
 //	L  linearizable: never returns rows on a node that was not leader during the
-//	   read; never returns rows on a leader that is cut off from every other node
-//	   (cut happened before the read began); when it returns rows on a leader the
-//	   value reflects every write acknowledged before the read began.
+//	   read; never returns rows on an ex-leader that is cut off from every other
+//	   node once a new leader has acknowledged a write (cut and write happened
+//	   before the read began); when it returns rows on a leader the value
+//	   reflects every write acknowledged before the read began.
 //
 // "Was not leader at any time during the read" is established by sampling raft
 // state and term before and after: Follower/Candidate in term T before and
@@ -145,6 +146,7 @@ type liveEnv struct {
 	unk   bool              // some write had an unknown outcome
 	cutAt map[int]time.Time // node index -> time it was cut off from the leader (and everyone else)
 	lcut  *vnode.Node       // leader isolated by cut-leader (nil if none)
+	lsup  bool              // a new leader acknowledged a write after lcut was cut off
 	trace []string
 }
 
@@ -233,7 +235,8 @@ func (e *liveEnv) judge(idx int, n *vnode.Node, r readT, before, after vnode.Raf
 		if o.err == nil && o.served != "local" {
 			return "C16/" + auto + "none-not-local-" + path, fmt.Sprintf("%v was forwarded (served by another node)", r)
 		}
-		if neverLeader && r.Fresh == bound && cutFor > bound+cutMargin && o.err == nil {
+		// (an ex-leader's last-contact clock starts when it steps down, not when it was cut off)
+		if neverLeader && r.Fresh == bound && cutFor > bound+cutMargin && o.err == nil && n != e.lcut {
 			return "C16/" + auto + "none-stale-served-" + path,
 				fmt.Sprintf("%v returned rows %q although %s had been cut off from the leader for %v (> freshness %v)", r, o.rows, n.Name, cutFor.Round(time.Millisecond), bound)
 		}
@@ -249,8 +252,16 @@ func (e *liveEnv) judge(idx int, n *vnode.Node, r readT, before, after vnode.Raf
 				fmt.Sprintf("%v returned rows %q produced locally by %s (%s, term %d unchanged)", r, o.rows, n.Name, before.State, before.Term)
 		}
 		if leaderCutBefore && e.lcut == n && o.err == nil && o.served == "local" {
-			return "C16/linearizable-served-without-quorum-" + path,
-				fmt.Sprintf("%v returned rows %q on %s, which had been cut off from all other nodes before the read began", r, o.rows, n.Name)
+			// Sound only once the rest of the cluster has moved on: hashicorp/raft lets heartbeat
+			// acknowledgements that were already in flight when the link was cut confirm a
+			// VerifyLeader issued right after the cut (seen under heavy load), and the data is
+			// still current then. After a new leader acknowledged a write, rows from the
+			// cut-off node necessarily miss that write.
+			if e.lsup {
+				return "C16/linearizable-served-by-deposed-leader-" + path,
+					fmt.Sprintf("%v returned rows %q on %s, which was cut off from all other nodes and superseded (a new leader had acknowledged a write) before the read began", r, o.rows, n.Name)
+			}
+			e.rec.Label("observed:linearizable-served-right-after-cut")
 		}
 		if o.err == nil && !e.unk && wasLeaderThroughout && o.served == "local" && o.rows != fmt.Sprint(ackedBefore) && o.rows != fmt.Sprint(e.acked) {
 			return "C16/linearizable-missed-write-" + path,
@@ -361,6 +372,28 @@ func TestVerif_C16_Live(t *testing.T) {
 				}
 				e.c.Net.Isolate(cl.Name)
 				e.lcut = cl
+				e.lsup = false
+				// let the majority side move on: new leader + one acknowledged write
+				deadline := time.Now().Add(10 * time.Second)
+				for time.Now().Before(deadline) && !e.lsup {
+					for _, n := range nodes[:3] {
+						if n != cl && n.Store.IsLeader() {
+							if _, _, err := n.Store.Execute(ctx, vnode.Exec("UPDATE c SET v=v+1 WHERE id=1")); err == nil {
+								e.acked++
+								e.lsup = true
+							} else {
+								e.unk = true
+							}
+							break
+						}
+					}
+					if !e.lsup {
+						time.Sleep(20 * time.Millisecond)
+					}
+				}
+				if !e.lsup {
+					rec.Label("cut-leader:no-successor-write")
+				}
 				for i, n := range nodes {
 					if n == cl {
 						e.cutAt[i] = time.Now()
@@ -374,6 +407,7 @@ func TestVerif_C16_Live(t *testing.T) {
 				}
 				e.c.Heal()
 				e.lcut = nil
+				e.lsup = false
 				e.cutAt = map[int]time.Time{}
 				e.trace = append(e.trace, "heal")
 				if !e.c.WaitAgreed(waitLong) {
